@@ -2,6 +2,7 @@
 from ..rules import liveness as L
 from ..rules import contain as C
 from ..rules import broken as B
+from ..rules import routing as Rt
 
 EXPLANATION = (
     "Static analysis (points-to + CFG + lock context). Decides necessary conditions of deadlock freedom, each "
@@ -30,5 +31,6 @@ def run(e, R, tier):
         C.r_feeder,
         B.r_waitset,
         B.r_mgr_total,
+        Rt.r_once,
     ])
     R.trust("stdlib facts: mp.Queue.put starts the feeder thread; Thread.start runs run(); Executor.map calls submit")
